@@ -5,12 +5,18 @@ import (
 	"context"
 	"fmt"
 	"log/slog"
+	"net/http"
+	"net/http/httptest"
+	"regexp"
+	"runtime"
+	"sort"
 	"strconv"
 	"strings"
 	"sync"
 	"sync/atomic"
 	"time"
 
+	"github.com/whoisnian/glb/httpd"
 	"github.com/whoisnian/glb/logger"
 	"verifharness/hk"
 	"verifharness/lg"
@@ -159,12 +165,44 @@ type rec struct {
 	gateKnd int  // 0 none, 1 LogValuer, 2 Marshaler/Stringer
 	park    bool // formatting parks
 	bigMsg  bool // the size goes into the message instead of the attributes
+	pc      int  // which of lg.PCs a hand-built record carries (handlers with addSource)
 }
 
 type hdl struct {
 	chain  []lg.Step
 	during int // -1: exists before the run; t >= 0: derived by goroutine t during the run (from handler parent)
 	parent int
+	apiAt  int // steps chain[apiAt:] are made through logger.New(h).With / WithGroup (one *Logger per node), the earlier ones through the Handler
+}
+
+// node: a handler and the Logger around it; h == nil when the node was derived through the Logger API (no access to its handler)
+type node struct {
+	h logger.Handler
+	l *logger.Logger
+}
+
+func rootNode(h logger.Handler) node { return node{h, logger.New(h)} }
+
+func deriveNode(n node, st lg.Step, api bool) node {
+	if api || n.h == nil {
+		if st.Group != "" {
+			return node{nil, n.l.WithGroup(st.Group)}
+		}
+		var args []any
+		for _, a := range st.Attrs() {
+			args = append(args, a)
+		}
+		return node{nil, n.l.With(args...)}
+	}
+	return rootNode(lg.ApplyStep(n.h, st))
+}
+
+func (h hdl) build(root node) node {
+	n := root
+	for i, st := range h.chain {
+		n = deriveNode(n, st, i >= h.apiAt)
+	}
+	return n
 }
 
 type scenario struct {
@@ -175,6 +213,9 @@ type scenario struct {
 	handlers  []hdl
 	recs      []rec
 	gateWrite bool // goroutine 0's first record is held inside Write while the others try
+	colorful  bool
+	addSource bool
+	noFmtWait bool // formatting happens under the lock in this build (probe): do not wait for formatters behind a held lock
 }
 
 func pad(n int) string { return strings.Repeat("p", n) }
@@ -207,26 +248,30 @@ func (r *rec) attrs(g *gate) []slog.Attr {
 }
 
 // emit logs the record through handler h (or a Logger around it).
-func (r *rec) emit(h logger.Handler, g *gate) (err error) {
+func (r *rec) emit(n node, g *gate) (err error) {
+	h, l := n.h, n.l
+	via := r.via
+	if h == nil && via == 0 {
+		via = 1
+	}
 	defer func() {
 		if p := recover(); p != nil {
 			err = fmt.Errorf("panic: %v", p)
 		}
 	}()
 	ctx := context.Background()
-	switch r.via {
+	switch via {
 	case 0:
-		return h.Handle(ctx, lg.NewRecord(r.level, r.msg(), r.attrs(g)...))
+		return h.Handle(ctx, lg.NewRecordPC(r.level, r.msg(), lg.PCs[r.pc%len(lg.PCs)], r.attrs(g)...))
 	case 1:
-		logger.New(h).LogAttrs(ctx, r.level, r.msg(), r.attrs(g)...)
+		l.LogAttrs(ctx, r.level, r.msg(), r.attrs(g)...)
 	case 2:
-		logger.New(h).Logf(ctx, r.level, "LOG%dEND %v %s", r.id, gateAny{g, r.id}, pad(r.size))
+		l.Logf(ctx, r.level, "LOG%dEND %v %s", r.id, gateAny{g, r.id}, pad(r.size))
 	default:
 		var args []any
 		for _, a := range r.attrs(g) {
 			args = append(args, a)
 		}
-		l := logger.New(h)
 		switch r.level {
 		case logger.LevelDebug:
 			l.Debug(r.msg(), args...)
@@ -245,15 +290,20 @@ func (r *rec) emit(h logger.Handler, g *gate) (err error) {
 // (only used to describe a violation).
 func (sc *scenario) solo(r *rec) []byte {
 	var c lg.Capture
-	h := lg.Apply(lg.NewHandler(sc.kind, &c, logger.LevelDebug), sc.handlers[r.hidx].chain)
-	r.emit(h, nil)
+	n := sc.handlers[r.hidx].build(rootNode(lg.NewHandlerOpts(sc.kind, &c, slog.Level(-1000), sc.colorful, sc.addSource)))
+	r.emit(n, nil)
 	if len(c.Chunks) != 1 {
 		return nil
 	}
-	if r.via != 0 {
-		return lg.NormTime(sc.kind, c.Chunks[0])
+	return sc.norm(r, c.Chunks[0])
+}
+
+// lines made through a Logger carry time.Now(): blank the time on both sides
+func (sc *scenario) norm(r *rec, line []byte) []byte {
+	if r.via != 0 || sc.handlers[r.hidx].apiAt < len(sc.handlers[r.hidx].chain) {
+		return lg.NormTime(sc.kind, line)
 	}
-	return c.Chunks[0]
+	return line
 }
 
 type outcome struct {
@@ -271,12 +321,15 @@ func clipb(b []byte) []byte {
 
 func (sc *scenario) describe() string {
 	var sb strings.Builder
-	fmt.Fprintf(&sb, "%s/%s/threshold=%d/threads=%d/handlers=", sc.kind, sc.name, sc.threshold, sc.nthr)
+	fmt.Fprintf(&sb, "%s/%s/threshold=%d/threads=%d/colour=%v/source=%v/handlers=", sc.kind, sc.name, sc.threshold, sc.nthr, sc.colorful, sc.addSource)
 	for i, h := range sc.handlers {
 		if i > 0 {
 			sb.WriteByte(',')
 		}
 		fmt.Fprintf(&sb, "h%d:len%d", i, len(h.chain))
+		if h.apiAt < len(h.chain) {
+			fmt.Fprintf(&sb, "(LoggerAPI@%d)", h.apiAt)
+		}
 		if h.during >= 0 {
 			fmt.Fprintf(&sb, "(during@g%d)", h.during)
 		}
@@ -300,15 +353,15 @@ func (sc *scenario) describe() string {
 func execute(e *hk.Env, sc *scenario) outcome {
 	w := newRecWriter()
 	g := newGate()
-	root := lg.NewHandler(sc.kind, w, sc.threshold)
-	hs := make([]logger.Handler, len(sc.handlers))
+	root := rootNode(lg.NewHandlerOpts(sc.kind, w, sc.threshold, sc.colorful, sc.addSource))
+	hs := make([]node, len(sc.handlers))
 	ready := make([]chan struct{}, len(sc.handlers))
 	for i := range sc.handlers {
 		ready[i] = make(chan struct{})
 	}
 	for i, h := range sc.handlers {
 		if h.during < 0 {
-			hs[i] = lg.Apply(root, h.chain)
+			hs[i] = h.build(root)
 			close(ready[i])
 		}
 	}
@@ -342,7 +395,7 @@ func execute(e *hk.Env, sc *scenario) outcome {
 						}
 						close(ready[i])
 					}()
-					hs[i] = lg.ApplyStep(hs[h.parent], h.chain[len(h.chain)-1])
+					hs[i] = deriveNode(hs[h.parent], h.chain[len(h.chain)-1], len(h.chain)-1 >= h.apiAt)
 				}()
 			}
 		}
@@ -385,6 +438,9 @@ func execute(e *hk.Env, sc *scenario) outcome {
 				}
 			}
 			spawn(t)
+		}
+		if sc.noFmtWait {
+			want = nil
 		}
 		deadline := time.After(3 * time.Second)
 		for len(want) > 0 {
@@ -466,7 +522,42 @@ func execute(e *hk.Env, sc *scenario) outcome {
 			g.mu.Unlock()
 		}
 	}
-	wg.Wait()
+	// per-scenario deadline: a hang is a finding with the scenario, not a harness timeout
+	allDone := make(chan struct{})
+	go func() { wg.Wait(); close(allDone) }()
+	select {
+	case <-allDone:
+	case <-time.After(scenarioDeadline):
+		// open every gate of the harness, then look again
+		if sc.gateWrite {
+			select {
+			case <-w.release:
+			default:
+				close(w.release)
+			}
+		}
+		g.mu.Lock()
+		for rid, ch := range g.resume {
+			select {
+			case <-ch:
+			default:
+				close(ch)
+			}
+			g.park[rid] = false
+		}
+		for rid := range g.park {
+			g.park[rid] = false
+		}
+		g.mu.Unlock()
+		select {
+		case <-allDone:
+		case <-time.After(2 * time.Second):
+			deadlocks++
+			e.Case("VIOL", "c02", "deadlock", "scenario="+strings.ReplaceAll(sc.describe(), " ", "_"), "goroutines="+goroutineStates())
+			e.Case("E", strconv.Itoa(int(sc.kind)), strconv.Itoa(sc.nthr), "0", "0", "W:0:0")
+			return outcome{bad: 1}
+		}
+	}
 
 	// ---- judge
 	out := outcome{}
@@ -488,10 +579,7 @@ func execute(e *hk.Env, sc *scenario) outcome {
 		r := byID[id]
 		eq := false
 		if r != nil {
-			got := c.data
-			if r.via != 0 {
-				got = lg.NormTime(sc.kind, got)
-			}
+			got := sc.norm(r, c.data)
 			want := sc.solo(r)
 			eq = want != nil && bytes.Equal(got, want)
 			seen[id]++
@@ -557,6 +645,77 @@ func execute(e *hk.Env, sc *scenario) outcome {
 	return out
 }
 
+var scenarioDeadline = 20 * time.Second
+var deadlocks int
+
+var reGoroutine = regexp.MustCompile(`(?m)^goroutine \d+ \[([^\]]+)\]:\n((?:.+\n)+)`)
+var reLoggerFrame = regexp.MustCompile(`github.com/whoisnian/glb/logger\.([^\s(]+(?:\([^)]*\))?[^\s(]*)\(`)
+
+// goroutineStates: "<wait reason>@<innermost glb/logger function> x count" for the goroutines that are inside the logger
+func goroutineStates() string {
+	buf := make([]byte, 1<<20)
+	buf = buf[:runtime.Stack(buf, true)]
+	counts := map[string]int{}
+	for _, m := range reGoroutine.FindAllSubmatch(buf, -1) {
+		if f := reLoggerFrame.FindSubmatch(m[2]); f != nil {
+			counts[strings.ReplaceAll(string(m[1]), " ", "_")+"@"+string(f[1])]++
+		}
+	}
+	var parts []string
+	for k, n := range counts {
+		parts = append(parts, fmt.Sprintf("%sx%d", k, n))
+	}
+	sort.Strings(parts)
+	if len(parts) == 0 {
+		return "-"
+	}
+	return strings.Join(parts, ",")
+}
+
+// probe: one goroutine is held inside Write (so it holds the output lock); does another goroutine's FORMATTING proceed meanwhile?
+// (formatting under the lock is correct, only less concurrent: then the forced schedules that park formatters are pointless.)
+// With twoRoots the second goroutine logs through an independent root handler on the same destination: its Write must be seen
+// overlapping - the negative control of the overlap detector.
+func probe(k lg.Kind, twoRoots bool) (formatted, overlapped bool) {
+	w := newRecWriter()
+	g := newGate()
+	a := lg.NewHandler(k, w, logger.LevelDebug)
+	b := a.WithAttrs([]slog.Attr{slog.Int("d", 1)})
+	if twoRoots {
+		b = lg.NewHandler(k, w, logger.LevelDebug)
+	}
+	w.armed.Store(true)
+	done := make(chan struct{}, 2)
+	go func() {
+		defer func() { recover(); done <- struct{}{} }()
+		a.Handle(context.Background(), lg.NewRecord(logger.LevelInfo, lg.Msg(1)))
+	}()
+	select {
+	case <-w.entered:
+	case <-time.After(3 * time.Second):
+		return false, false
+	}
+	go func() {
+		defer func() { recover(); done <- struct{}{} }()
+		b.Handle(context.Background(), lg.NewRecord(logger.LevelInfo, lg.Msg(2), slog.Any("gate", gateLV{g, 2})))
+	}()
+	select {
+	case <-g.reached:
+		formatted = true
+	case <-time.After(300 * time.Millisecond):
+	}
+	time.Sleep(5 * time.Millisecond)
+	overlapped = w.overlaps.Load() > 0
+	close(w.release)
+	for i := 0; i < 2; i++ {
+		select {
+		case <-done:
+		case <-time.After(3 * time.Second):
+		}
+	}
+	return
+}
+
 // ------------------------------------------------------------------------------------------------ threshold sweep
 
 var sweepThresholds = []int{-8, -1, 0, 1, 2, 3, 4, 5, 6, 7, 8, 9, 11, 12, 13, 15, 16, 17, 20, 100}
@@ -605,6 +764,14 @@ func thresholdSweep(e *hk.Env) (calls, bad int) {
 				l.Errorf("%s k=%d", msg, 1)
 			}
 		}},
+		{"Panic", func(lv slog.Level) bool { return lv == logger.LevelError }, func(l *logger.Logger, _ logger.Handler, lv slog.Level, msg string) {
+			defer func() { recover() }()
+			l.Panic(msg, "k", 1)
+		}},
+		{"Panicf", func(lv slog.Level) bool { return lv == logger.LevelError }, func(l *logger.Logger, _ logger.Handler, lv slog.Level, msg string) {
+			defer func() { recover() }()
+			l.Panicf("%s k=%d", msg, 1)
+		}},
 		{"Log", any, func(l *logger.Logger, _ logger.Handler, lv slog.Level, msg string) { l.Log(ctx, lv, msg, "k", 1) }},
 		{"Logf", any, func(l *logger.Logger, _ logger.Handler, lv slog.Level, msg string) {
 			l.Logf(ctx, lv, "%s k=%d", msg, 1)
@@ -629,6 +796,38 @@ func thresholdSweep(e *hk.Env) (calls, bad int) {
 				var cs lg.Capture
 				hs := lg.Apply(lg.NewHandler(k, &cs, slog.Level(-1000)), sh.chain)
 				ls := logger.New(hs)
+				// Relay logs REQ_BEG and REQ_END at Info behind its own Enabled gate: two whole lines iff threshold <= Info
+				{
+					mux := httpd.NewMux()
+					mux.HandleRelay(l.Relay)
+					mux.Handle("/x", http.MethodGet, func(*httpd.Store) {})
+					func() {
+						defer func() { recover() }()
+						mux.ServeHTTP(httptest.NewRecorder(), httptest.NewRequest(http.MethodGet, "/x", nil))
+					}()
+					got := c.Take()
+					calls++
+					shaped := len(got) == 2 && bytes.Contains(got[0], []byte("REQ_BEG")) && bytes.Contains(got[1], []byte("REQ_END"))
+					for _, ch := range got {
+						shaped = shaped && bytes.Count(ch, []byte{'\n'}) == 1 && ch[len(ch)-1] == '\n'
+					}
+					writes, b := len(got)/2, 0
+					if len(got)%2 == 1 {
+						writes = 90 + len(got)
+					}
+					if shaped {
+						b = 1
+					}
+					e.Case("T", strconv.Itoa(int(k)), strconv.Itoa(th), "4", "Relay(2-records)", sh.name, strconv.Itoa(writes), strconv.Itoa(b))
+					should := 4 >= th
+					if (should && !shaped) || (!should && len(got) != 0) {
+						bad++
+						if bad <= 6 {
+							e.Case("VIOL", "c02", fmt.Sprintf("threshold kind=%s threshold=%d level=4 entry=Relay logger=%s writes=%d expected-writes=%d", k, th, sh.name,
+								len(got), map[bool]int{true: 2, false: 0}[should]))
+						}
+					}
+				}
 				for _, lv := range validLevels {
 					for _, en := range entries {
 						if !en.ok(lv) {
@@ -685,15 +884,15 @@ func withStep(i int) lg.Step {
 
 // handlers: mode 0 root only; 1 derived before the run; 2 derived during the run by the goroutines
 func mkHandlers(r *hk.Rng, mode, nthr int) []hdl {
-	hs := []hdl{{nil, -1, -1}}
+	hs := []hdl{{nil, -1, -1, 0}}
 	switch mode {
 	case 1:
 		hs = append(hs,
-			hdl{[]lg.Step{withStep(1)}, -1, 0},
-			hdl{[]lg.Step{{Group: "g"}}, -1, 0},
-			hdl{[]lg.Step{withStep(1), {Group: "g"}, withStep(2)}, -1, 0})
+			hdl{[]lg.Step{withStep(1)}, -1, 0, r.Intn(2)},
+			hdl{[]lg.Step{{Group: "g"}}, -1, 0, r.Intn(2)},
+			hdl{[]lg.Step{withStep(1), {Group: "g"}, withStep(2)}, -1, 0, r.Intn(4)})
 	case 2:
-		hs = append(hs, hdl{[]lg.Step{withStep(1)}, -1, 0}) // a shared parent with attributes
+		hs = append(hs, hdl{[]lg.Step{withStep(1)}, -1, 0, r.Intn(2)}) // a shared parent with attributes
 		for t := 0; t < nthr; t++ {
 			parent := r.Intn(2)
 			var st lg.Step
@@ -702,7 +901,12 @@ func mkHandlers(r *hk.Rng, mode, nthr int) []hdl {
 			} else {
 				st = withStep(10 + t)
 			}
-			hs = append(hs, hdl{append(append([]lg.Step(nil), hs[parent].chain...), st), t, parent})
+			np := len(hs[parent].chain)
+			apiAt := hs[parent].apiAt // a node made through the Logger API has only Logger children
+			if apiAt >= np {
+				apiAt = np + r.Intn(2)
+			}
+			hs = append(hs, hdl{append(append([]lg.Step(nil), hs[parent].chain...), st), t, parent, apiAt})
 		}
 	}
 	return hs
@@ -728,14 +932,25 @@ func run(e *hk.Env) error {
 	newRec := func(sc *scenario, t, hidx int, level slog.Level, via, size, gk int, park bool) {
 		nextID++
 		sc.recs = append(sc.recs, rec{id: nextID, thread: t, level: level, enabled: level >= sc.threshold, via: via, hidx: hidx, size: size, gateKnd: gk, park: park,
-			bigMsg: !park && r.Chance(25)})
+			bigMsg: !park && r.Chance(25), pc: r.Intn(4)})
 	}
 	scen, bad, writes, recsTotal, disabledTotal := 0, 0, 0, 0, 0
 	hist := map[string]int{}
 	sizeHist := map[int]int{}
 	durs := map[string]float64{}
+	skipped := 0
 	thrHist := map[int]int{}
+	fmtUnderLock := map[lg.Kind]bool{}
 	do := func(sc *scenario) {
+		if deadlocks >= 2 {
+			return // the build hangs: two scenarios reported, the rest would only add waiting time
+		}
+		sc.colorful, sc.addSource = r.Chance(25), r.Chance(45)
+		sc.noFmtWait = fmtUnderLock[sc.kind]
+		if sc.noFmtWait && sc.name == "parked-formatter" {
+			skipped++
+			return
+		}
 		if sc.threshold > logger.LevelDebug {
 			for i := range sc.recs {
 				// Handle itself has no level gate: records below the level go through Logger
@@ -763,6 +978,17 @@ func run(e *hk.Env) error {
 			e.Sample("samples", sc.describe(), 5)
 		}
 	}
+	// probes: is formatting done outside the output lock (then goroutines can be parked in it)? does the overlap detector work?
+	ful, neg := map[string]bool{}, map[string]bool{}
+	for _, k := range lg.Kinds {
+		formatted, _ := probe(k, false)
+		fmtUnderLock[k] = !formatted
+		ful[k.String()] = !formatted
+		_, ov := probe(k, true)
+		neg[k.String()] = ov
+	}
+	e.Stats["formatting_under_lock"] = ful
+	e.Stats["negative_control_two_roots_overlap_detected"] = neg
 	reps := 6
 	if e.Thorough() {
 		reps = 60
@@ -864,6 +1090,8 @@ func run(e *hk.Env) error {
 			do(sc)
 		}
 	}
+	e.Stats["scenarios_skipped_formatting_under_lock"] = skipped
+	e.Stats["deadlocks"] = deadlocks
 	tcalls, tbad := thresholdSweep(e)
 	e.Stats["threshold_sweep_calls"] = tcalls
 	e.Stats["threshold_sweep_violating"] = tbad
